@@ -1094,6 +1094,7 @@ def check_c18(prog, rep, tier, cfg):
     c18f(prog, rep)
     c18j(prog, rep)
     c18k(prog, rep)
+    c18l(prog, rep)
     # C18.g — "the exit status is non-zero if and only if at least one file failed": every Err reaches the handler, the handler sets a
     # flag (not a count that can wrap), main selects between two constant exit codes — shared with C16.e
     from engine import AliasReport
@@ -1225,6 +1226,26 @@ def c18k(prog, rep):
               "the parallel batch is entered (%s) without the global pool having been set up with a stack of at least %d bytes: worker threads get the 2 MiB default, so a nested file that "
               "formats on its own (on the main thread) overflows the stack in a batch and aborts the run for all files" % (sorted({(c.callee or "").split("::")[-1] for c in bad}), MAIN_THREAD_STACK),
               where=bad[0].where() if bad else None, instance={"batch_entry_calls": len(batch_calls), "pool_setups_with_stack>=8MiB": len(setups)})
+
+
+def c18l(prog, rep):
+    """C18.l — "every file gets exactly the result it gets when formatted alone": the settings a file is formatted with are a function of
+    the invocation (working directory, --config-file, -C options), never of which other files are named next to it.  The list of
+    input paths (`paths`, `--files-from`) is read only to produce the list of files to process and to tell whether stdin is used; the
+    code that finds and builds the configuration does not look at it.  (A configuration looked up near `the first named input` gives a
+    file another configuration in a batch than alone.)"""
+    R = "C18.l"
+    from layout import inventory, readers
+    PC = "pasfmt_orchestrator::command_line::PasFmtConfiguration"
+    IMP = "<pasfmt_orchestrator::command_line::PasFmtConfiguration as pasfmt_orchestrator::formatting_orchestrator::FormatterConfiguration>::"
+    reviewed = [IMP + "get_paths", IMP + "is_stdin"]
+    n = 0
+    for f in ("paths", "files_from"):
+        rd = sorted({a[0].npath for a in prog.field_accesses(PC, f) if a[3] in ("read", "ref", "refmut") and "core::fmt::Debug" not in a[0].npath and "clap_builder::derive::" not in a[0].npath})
+        n += len(rd)
+        inventory(rep, R, "readers of the input path list (PasFmtConfiguration.%s)" % f, rd, reviewed,
+                  "the path list decides which files are processed, nothing else: a configuration (or any other per-run value) derived from it differs between a batch and a single file")
+    rep.floor(R, "readers of the input path list", n, 3)
 
 
 FILE_OPENERS = ("std::fs::OpenOptions::open", "std::fs::File::open", "std::fs::File::create", "std::fs::File::create_new", "std::fs::File::open_buffered")
